@@ -25,7 +25,7 @@ def check_frame(df, start, unit, n_expected=None):
 def vals(df): return [float(x) for x in df["value"].values._data]
 
 
-STARTS = [datetime(2025, 1, 1), datetime(2024, 2, 27, 18), datetime(2023, 12, 30, 7), datetime(2024, 12, 29, 23), datetime(2025, 3, 29, 5), datetime(2028, 2, 28)]
+STARTS = [datetime(2025, 1, 1), datetime(2024, 2, 27, 18), datetime(2025, 6, 12, 10, 30), datetime(2024, 12, 29, 23), datetime(2025, 3, 29, 5), datetime(2028, 2, 28), datetime(2023, 12, 30, 7), datetime(2026, 11, 3, 21, 45, 30)]
 UNITS = [u.dimensionless, u.GB, u.kg]
 
 
